@@ -1,3 +1,28 @@
 // in-place Kani harnesses for src/draw_target.rs (child module: sees private items via super::*)
 #![allow(unused_imports, dead_code)]
 use super::*;
+
+static mut MOCK_COLS: usize = 0;
+fn mock_width(_s: &str) -> usize {
+    unsafe { MOCK_COLS }
+}
+
+/// C19 / C01: LineType::wrapped_height == max(1, ceil(cols / width)).
+/// BOUNDED stand-in (the f64 division + ceil does not finish on the full u32 x u16 domain):
+/// cols <= 4096, width in 1..=256.  Not counted as proved.
+#[kani::proof]
+#[kani::stub(console::measure_text_width, mock_width)]
+fn c19_wrapped_height_bounded() {
+    let cols: usize = kani::any();
+    kani::assume(cols <= 4096);
+    unsafe {
+        MOCK_COLS = cols;
+    }
+    let line = LineType::Empty;
+    let width: usize = kani::any();
+    kani::assume(width >= 1 && width <= 256);
+    let h = line.wrapped_height(width).as_usize();
+    let expect = if cols == 0 { 1 } else { (cols + width - 1) / width };
+    assert!(h == expect, "wrapped_height == max(1, ceil(cols/width))");
+    kani::cover!(h > 1, "cover: wraps");
+}
